@@ -485,6 +485,46 @@ func runC13(r *fw.Run) {
 		c13RacingRegistrations(r, k)
 		r.Done(0)
 	}
+	// the same name registered from 2 .. 8 goroutines released at the same instant, on a fresh service each time: in any
+	// order of the calls exactly one of them is the first, so exactly one may return nil (seeded change C13-P: the check and
+	// the insert in two critical sections). Under the failpoint pass the window between the two is held open.
+	for k := 0; k < r.Pick(600, 6000) && r.ViolationCount() <= 12; k++ {
+		svc, err := varlink.NewService("Verif", "Instant", "1", "u")
+		if err != nil {
+			break
+		}
+		n := 2 + k%7
+		name := fmt.Sprintf("org.example.instant%d", k)
+		if k%4 == 0 {
+			r.StepFP()
+		}
+		var gate int32 // a spinning barrier: the calls begin within nanoseconds of each other
+		errs := make([]error, n)
+		var wg sync.WaitGroup
+		for i := 0; i < n; i++ {
+			wg.Add(1)
+			go func(i int) {
+				defer wg.Done()
+				d := &ScriptDisp{Name: name, Desc: defaultDesc(name)}
+				atomic.AddInt32(&gate, 1)
+				for spin := 0; atomic.LoadInt32(&gate) < int32(n) && spin < 2000000; spin++ {
+				}
+				errs[i] = svc.RegisterInterface(d)
+			}(i)
+		}
+		wg.Wait()
+		okN := 0
+		for _, e := range errs {
+			if e == nil {
+				okN++
+			}
+		}
+		if okN != 1 {
+			r.Violation("C13 registration-not-refused", fmt.Sprintf("%d goroutines registered the name %q at the same instant on a service that is not serving: %d of the calls returned nil (exactly one of them can have been the first)", n, name, okN),
+				map[string]interface{}{"what": "same name registered at the same instant", "goroutines": n})
+		}
+		r.Count("same_instant_duplicate_rounds", 1)
+	}
 }
 
 // c13RacingRegistrations: registrations whose VarlinkGetDescription (user code the library calls from RegisterInterface)
